@@ -1,4 +1,5 @@
 import GMGModel.Build
+import GMGProofs.Lemmas.InputsOK
 import GMGProofs.Props.C10h
 import GMGProofs.Props.C03c
 import GMGProofs.Lemmas.Concrete15
@@ -51,18 +52,6 @@ end AnyScalar
 
 section Ordered
 variable {K : Type} [_root_.Field K] [LinearOrder K] [IsStrictOrderedRing K]
-
-/-- admissible inputs on one grid: increasing coordinates, `α > 0`, `β ≥ 0`, `det DF ≠ 0` at the nodes, `absF` is the absolute value -/
-structure InputsOK (E : Env K) (G : GridData K) : Prop where
-  valid : G.g.Valid
-  radius_inc : ∀ i, i + 1 < G.g.nr → G.radius i < G.radius (i + 1)
-  theta_inc : ∀ j, j < G.g.nt → G.theta j < G.theta (j + 1)
-  alpha_pos : ∀ i, i < G.g.nr → 0 < E.alpha (G.radius i)
-  beta_nonneg : ∀ i, i < G.g.nr → 0 ≤ E.beta (G.radius i)
-  det_ne : ∀ i j, i < G.g.nr → j < G.g.nt →
-    let J := E.jac (G.radius i) (G.theta j) (E.sinF (G.theta j)) (E.cosF (G.theta j))
-    J.1 * J.2.2.2 - J.2.2.1 * J.2.1 ≠ 0
-  abs_is : ∀ x, E.absF x = |x|
 
 /-- **the operator data `setup()` hands out are elliptic** -/
 theorem opOf_elliptic (E : Env K) (G : GridData K) (h : InputsOK E G) (bc cc cg : Bool) :
